@@ -130,6 +130,9 @@ pub open spec fn interest(name: Seq<char>, macros: Seq<RustLogMacro>, k: int) ->
 
     # ---- find ---------------------------------------------------------------------------------------------
     f = u.real_fn(RP, "find", scope=FINDER_SCOPE, props=("C03", "C05", "C06", "C11", "C13", "C14", "C17"))
+    # four nested loops over a large context: with loop_isolation(false) the queries exceed the default resource limit (measured:
+    # needs --rlimit 100, 57 s), so this function keeps Verus's default isolation and restates what each loop needs
+    f.keep_isolation = True
     rules.sig(f, ret="result")
     _names = re.findall(r"static\s+ref\s+(\w+)\s*:", f.mbody)
     rules.r16_map_or(f, inner_subst=[(r"&\s*%s\b" % n, "%s_shim()" % n) for n in _names])
